@@ -482,6 +482,44 @@ def k4_key_normal_form(ctx, K: Kinds) -> None:
         ctx.violation("K4", are.node, "RuleDBBase.are_equivalent must be equivdb.equivalent(label, other)", construct="RuleDBBase.are_equivalent")
     # ... and cycles connected first
     k4c_connect_before_collapse(ctx)
+    k4d_actual_rule_scan(ctx)
+
+
+def k4d_actual_rule_scan(ctx) -> None:
+    """rule_from_equivalence_rule_dict finds, for keys up to equivalence, actual rules with that
+    key: it has to compute the key of *every* stored rule.  The stored labels are raw, the keys
+    asked for are representatives; any shortcut that compares a stored (raw) label with what
+    was asked for (representatives) skips every rule of a class that is not its own
+    representative."""
+    P = ctx.P
+    m = P.need_method("RuleDBBase", "rule_from_equivalence_rule_dict", own=True)
+    f = m.node
+    ctx.analysed(m)
+    param = [p for p in D.param_names(f) if p != "self"][0]
+    loops = [l for l in walk_local(f) if isinstance(l, ast.For) and norm(l.iter) in ("self.rule_to_strategy", "self.rule_to_strategy.keys()", "self")]
+    if len(loops) != 1:
+        raise AnalysisError("K4: rule_from_equivalence_rule_dict no longer scans self.rule_to_strategy")
+    lp = loops[0]
+    raw = {n.id for n in ast.walk(lp.target) if isinstance(n, ast.Name)}
+    stores = [n for n in walk_local(lp) if isinstance(n, ast.Assign) and isinstance(n.targets[0], ast.Subscript)]
+    if not stores:
+        raise AnalysisError("K4: rule_from_equivalence_rule_dict no longer records key -> actual rule")
+    asked = {param} | {nm for nm, ds in D.definitions(f).items() if any(d[1] is not None and param in {x.id for x in ast.walk(d[1]) if isinstance(x, ast.Name)} for d in ds)}
+    for st in stores:
+        key = norm(st.targets[0].slice)
+        bad = False
+        for t, pol in C.flatten_guards(C.guards(f, st, within=lp)):
+            names = {x.id for x in ast.walk(t) if isinstance(x, ast.Name)}
+            if norm(t) in (f"{key} in {a}" for a in asked):
+                continue
+            if names & raw and names & asked:
+                bad = True
+                ctx.violation("K4", t, f"a stored rule is looked at only under `{norm(t)}`, which compares the stored (raw) label(s) {sorted(names & raw)} with the keys asked for "
+                              f"({sorted(names & asked)}, representatives): rules of a class that is not its own representative are never found")
+            elif names & raw:
+                raise AnalysisError(f"K4: rule_from_equivalence_rule_dict filters stored rules by `{norm(t)}`; not understood")
+        if not bad:
+            ctx.ok("K4", "every stored rule's key up to equivalence is computed and compared with the keys asked for")
 
 
 def k4c_connect_before_collapse(ctx) -> None:
